@@ -116,6 +116,13 @@ func (x *Exec) oblige(st *State, kind string, goal *Term, pos token.Pos, note st
 	if st.pc == False {
 		return
 	}
+	if x.job.fn != nil && x.cutsOnly() && !strings.HasPrefix(kind, "assert(before ") && !strings.HasPrefix(kind, "inv-") {
+		// a function checked for its cuts only: its other proof obligations (run-time safety, callees' preconditions,
+		// frame) are not generated here; executions on which they fail are outside what the cuts speak about
+		x.trusted["CUTS-ONLY "+x.job.Name+": only the `before` cuts are decided; run-time safety and callee preconditions inside this function are assumed"] = true
+		x.assumeFact(st, goal)
+		return
+	}
 	name := x.oblName(kind)
 	orig := goal
 	goal = x.skolemize(st, goal, 0)
@@ -156,40 +163,11 @@ func (x *Exec) assertsBefore(fr *Frame, st *State, in *ssa.Call) {
 	if fr.contract == nil || fr.caller != nil || x.pure > 0 {
 		return
 	}
-	name := ""
-	if in.Call.IsInvoke() {
-		name = in.Call.Method.Name()
-	} else if f := in.Call.StaticCallee(); f != nil {
-		name = f.Name()
-		// an instance of a generic function is also addressed by the generic function's name
-		if o := f.Origin(); o != nil && o != f {
-			for _, cl := range fr.contract.Clauses {
-				if (cl.Kind == "assert" || cl.Kind == "bind") && cl.Name == o.Name() {
-					name = o.Name()
-				}
-			}
-		}
-	}
-	if name == "" {
-		// a call through a function-typed field (p.ParseOne(...)): addressed by the field's name
-		switch v := in.Call.Value.(type) {
-		case *ssa.Field:
-			if st, ok := v.X.Type().Underlying().(*types.Struct); ok {
-				name = st.Field(v.Field).Name()
-			}
-		case *ssa.UnOp:
-			if fa, ok := v.X.(*ssa.FieldAddr); ok {
-				if pt, ok := fa.X.Type().Underlying().(*types.Pointer); ok {
-					if st, ok := pt.Elem().Underlying().(*types.Struct); ok {
-						name = st.Field(fa.Field).Name()
-					}
-				}
-			}
-		}
-	}
+	name := cutCallName(fr.contract, in)
 	if name == "" {
 		return
 	}
+	ord := callOrdinal(fr.contract, in, name)
 	// arg0, arg1, ...: the actual arguments of the call (for an invoked method: after the receiver)
 	argLets := map[string]*Val{}
 	for i, a := range in.Call.Args {
@@ -211,7 +189,7 @@ func (x *Exec) assertsBefore(fr *Frame, st *State, in *ssa.Call) {
 		}
 	}()
 	for _, cl := range fr.contract.Clauses {
-		if cl.Kind == "bind" && cl.Name == name {
+		if cl.Kind == "bind" && cutMatches(cl.Name, name, ord) {
 			cl.Used = true
 			ev := &evaluator{x: x, fr: fr, st: st, lets: map[string]*Val{}, lazy: map[string]ast.Expr{}, blk: in.Block(), midBlock: true}
 			for k, v := range fr.lets {
@@ -223,7 +201,14 @@ func (x *Exec) assertsBefore(fr *Frame, st *State, in *ssa.Call) {
 	}
 	var cls []*Clause
 	for _, cl := range fr.contract.Clauses {
-		if cl.Kind == "assert" && cl.Name == name {
+		if cl.Kind == "assert" && cutMatches(cl.Name, name, ord) {
+			// a value bound at another call that has not happened on the way here: the cut fails (rather than the
+			// contract being reported as ill-formed)
+			if nb := x.unboundBind(fr, cl); nb != "" {
+				cl.Used = true
+				x.oblige(st, "assert(before "+name+")", x.freshVal(st, "unbound."+nb, boolT).T, in.Pos(), cl.Src+"   [`"+nb+"` is bound at a call that has not been made before this point]")
+				continue
+			}
 			cls = append(cls, cl)
 		} else if cl.Kind == "let" && cl.Loop == 0 {
 			cls = append(cls, cl)
@@ -692,6 +677,10 @@ func (x *Exec) run(fr *Frame, st0 *State) (*Val, *State) {
 	incoming[fn.Blocks[0]] = []edgeState{{nil, st0}}
 	var rets []edgeState
 	var retVals []*Val
+	var cutReachSet map[*ssa.BasicBlock]bool
+	if fr.caller == nil && fr.contract != nil && fr.contract.CutsOnly && x.pure == 0 {
+		cutReachSet = cutReach(fr.contract, fn)
+	}
 	for _, b := range li.rpo {
 		ins := incoming[b]
 		var live []edgeState
@@ -708,6 +697,12 @@ func (x *Exec) run(fr *Frame, st0 *State) (*Val, *State) {
 			sts = append(sts, e.st)
 		}
 		st := x.ctx.mergeStates(sts)
+		if cutReachSet != nil && !cutReachSet[b] {
+			// cuts-only function: no cut can be reached from here any more; the rest of the body is not explored
+			rets = append(rets, edgeState{b, st})
+			retVals = append(retVals, x.freshResults(st, "cutsonly", fn.Signature.Results()))
+			continue
+		}
 		// phis
 		for _, ins := range b.Instrs {
 			phi, ok := ins.(*ssa.Phi)
@@ -2159,4 +2154,125 @@ func (x *Exec) fnConst(c *Closure) *Term {
 	t := IntLit(int64(7000000 + len(x.fnConsts)))
 	x.fnConsts = append(x.fnConsts, fnConst{term: t, clo: c})
 	return t
+}
+
+func (x *Exec) cutsOnly() bool {
+	c := x.prog.contractFor(x.job.fn)
+	return c != nil && c.CutsOnly
+}
+
+// cutCallName: the name by which the `before <callee>` clauses of contract c address the call in ("" if none).
+func cutCallName(c *Contract, in *ssa.Call) string {
+	name := ""
+	if in.Call.IsInvoke() {
+		name = in.Call.Method.Name()
+	} else if f := in.Call.StaticCallee(); f != nil {
+		name = f.Name()
+		// an instance of a generic function is also addressed by the generic function's name
+		if o := f.Origin(); o != nil && o != f {
+			for _, cl := range c.Clauses {
+				if (cl.Kind == "assert" || cl.Kind == "bind") && (cl.Name == o.Name() || strings.HasPrefix(cl.Name, o.Name()+"#")) {
+					name = o.Name()
+				}
+			}
+		}
+	}
+	if name == "" {
+		// a call through a function-typed field (p.ParseOne(...)): addressed by the field's name
+		switch v := in.Call.Value.(type) {
+		case *ssa.Field:
+			if st, ok := v.X.Type().Underlying().(*types.Struct); ok {
+				name = st.Field(v.Field).Name()
+			}
+		case *ssa.UnOp:
+			if fa, ok := v.X.(*ssa.FieldAddr); ok {
+				if pt, ok := fa.X.Type().Underlying().(*types.Pointer); ok {
+					if st, ok := pt.Elem().Underlying().(*types.Struct); ok {
+						name = st.Field(fa.Field).Name()
+					}
+				}
+			}
+		}
+	}
+	return name
+}
+
+// cutReach: the blocks of fn from which a call addressed by a `before` clause of c can still be reached.
+func cutReach(c *Contract, fn *ssa.Function) map[*ssa.BasicBlock]bool {
+	named := map[string]bool{}
+	for _, cl := range c.Clauses {
+		if cl.Kind == "assert" || cl.Kind == "bind" {
+			n := cl.Name
+			if i := strings.IndexByte(n, '#'); i >= 0 {
+				n = n[:i]
+			}
+			named[n] = true
+		}
+	}
+	reach := map[*ssa.BasicBlock]bool{}
+	var work []*ssa.BasicBlock
+	for _, b := range fn.Blocks {
+		for _, ins := range b.Instrs {
+			if call, ok := ins.(*ssa.Call); ok && named[cutCallName(c, call)] {
+				if !reach[b] {
+					reach[b] = true
+					work = append(work, b)
+				}
+			}
+		}
+	}
+	for len(work) > 0 {
+		b := work[len(work)-1]
+		work = work[:len(work)-1]
+		for _, p := range b.Preds {
+			if !reach[p] {
+				reach[p] = true
+				work = append(work, p)
+			}
+		}
+	}
+	return reach
+}
+
+// cutMatches: a `before` clause addresses every call of the named callee, or - written callee#k - only the k-th call
+// of it in the function's source text.
+func cutMatches(clauseName, callName string, ord int) bool {
+	if clauseName == callName {
+		return true
+	}
+	return clauseName == fmt.Sprintf("%s#%d", callName, ord)
+}
+
+// callOrdinal: 1 + the number of calls addressed by the same name that precede this one in the source text.
+func callOrdinal(c *Contract, in *ssa.Call, name string) int {
+	n := 1
+	for _, b := range in.Parent().Blocks {
+		for _, ins := range b.Instrs {
+			if call, ok := ins.(*ssa.Call); ok && call != in && call.Pos() < in.Pos() && cutCallName(c, call) == name {
+				n++
+			}
+		}
+	}
+	return n
+}
+
+// unboundBind: the first name in the cut's expression that a `bind` clause of the contract defines but that has no
+// value yet on this path.
+func (x *Exec) unboundBind(fr *Frame, cl *Clause) string {
+	binds := map[string]bool{}
+	for _, c := range fr.contract.Clauses {
+		if c.Kind == "bind" {
+			binds[c.Bind] = true
+		}
+	}
+	out := ""
+	ast.Inspect(cl.Expr, func(n ast.Node) bool {
+		if id, ok := n.(*ast.Ident); ok && out == "" && binds[id.Name] {
+			if _, has := fr.lets[id.Name]; !has {
+				out = id.Name
+			}
+		}
+		return true
+	})
+	return out
 }
